@@ -98,7 +98,8 @@ func (r *Run) Chance(pct int, label string) bool {
 	if pct >= 100 {
 		return true
 	}
-	return r.Src.Intn(100, label) < pct
+	// value 0 (what an exhausted or shrunk trace yields) is "does not happen"
+	return r.Src.Intn(100, label) >= 100-pct
 }
 
 // Bool draws a fair coin. Value 0 (the shrink target) is false.
